@@ -43,7 +43,8 @@ CONSTANTS DEV_OdmMutatesFirst,        \* open_deposit_mint mints / deposits befo
           DEV_LpWithdrawMutatesFirst, \* withdraw_uni_position hands the LP back before the 1.5x check
           DEV_BurnKeptOnReject,       \* burn_and_withdraw keeps the burn when the final check rejects    (C04)
           DEV_RedeemSwapsTokens,      \* _redeem_uni_token reads (base, quote) = (oSQTH, WETH) as (WETH, oSQTH)
-          DEV_BountyUncapped          \* reduce-debt bounty larger than the vault's ETH: collateral goes negative
+          DEV_BountyUncapped,         \* reduce-debt bounty larger than the vault's ETH: collateral goes negative
+          DEV_LentLpAtIndex           \* net value: oSQTH leg of an LP lent to a vault valued at index x TWAP instead of the bar's price (C01/C03)
 
 -----------------------------------------------------------------------------
 Two    == QI(2)
@@ -227,6 +228,19 @@ UpdFrom(st, e, i) ==
 
 Update(st) == LET r == UpdFrom(st, Env(st), 1) IN Res(r.st, "ok", "", r.acts, r.band, <<>>)
 
+(* the public liquidate(vault): rejected for an unknown or a safe vault, otherwise the liquidation of that one vault *)
+LiqOne(st, vk) ==
+  LET e == Env(st) IN
+  IF ~KnownVault(st, vk) THEN Rej(st, "novault")
+  ELSE IF AboveWater(e, st.vaults[vk])
+       THEN Res(st, "reject", "safe", <<>>, NearWater(e, st.vaults[vk], EpsOf(st, st.vaults[vk])), <<>>)
+       ELSE LET r == LiqVault(st, e, vk) IN Res(r.st, "ok", "", r.acts, r.band, <<>>)
+
+(* a wallet operation: oSQTH leaves the wallet (Broker.subtract_from_balance); lets a burn meet an empty wallet *)
+Spend(st, a) ==
+  LET qs == WSub(st.sqth, a) IN
+  IF qs.ok THEN Res([st EXCEPT !.sqth = qs.bal], "ok", "", <<>>, FALSE, <<>>) ELSE Rej(st, "wallet")
+
 NextBar(st, sym) ==
   LET p == IF Live THEN Append(st.path, sym) ELSE <<sym>> IN
   Res([st EXCEPT !.path = p, !.te = TwapWit(p, "eth"), !.ts = TwapWit(p, "sq")], "ok", "", <<>>, FALSE, <<>>)
@@ -241,6 +255,8 @@ Step(st, ev) ==
     [] ev.op = "lpdep"   -> LpDeposit(st, ev.vk, ev.lp)
     [] ev.op = "lpwd"    -> LpWithdraw(st, ev.vk, ev.lp)
     [] ev.op = "update"  -> Update(st)
+    [] ev.op = "liq"     -> LiqOne(st, ev.vk)
+    [] ev.op = "spend"   -> Spend(st, ev.a)
     [] ev.op = "next"    -> NextBar(st, ev.sym)
     [] ev.op = "bar"     -> LET u == Update(st)                      \* bar end through the Actuator: update, then the next row
                                 n == NextBar(u.st, ev.sym)
@@ -249,10 +265,34 @@ Step(st, ev) ==
 UserOp(ev) == ev.op \in {"odm", "rate", "deposit", "bw", "lpdep", "lpwd"}
 BarEnd(ev) == ev.op \in {"update", "bar"}
 
+-----------------------------------------------------------------------------
+(* Net value (C01/C03): defined from wallet and positions only, under the CURRENT row's prices.  The account quote  *)
+(* token is a USD stable coin; the pool's quote token is WETH (converted with the ETH price), Squeeth reports USD.   *)
+(* An LP position is worth its WETH + oSQTH at the bar's oSQTH price whoever holds it: in the pool's value while     *)
+(* "own", in the vault's collateral while "vault", nowhere once "gone" (its tokens went to vault and wallet).        *)
+PxEth(st) == Rows[Cur(st)].eth
+PxSq(st)  == Rows[Cur(st)].sq                                           \* ETH per oSQTH
+LpMark(st, k) == QAdd(LpAmt(Env(st), k)[1], QMul(LpAmt(Env(st), k)[2], PxSq(st)))
+
+RECURSIVE SumSeq(_, _, _)
+SumSeq(f(_), n, i) == IF i > n THEN Zero ELSE QAdd(f(i), SumSeq(f, n, i + 1))
+
+UniValue(st) == LET f(k) == IF st.lps[k] = "own" THEN LpMark(st, k) ELSE Zero IN SumSeq(f, Len(st.lps), 1)     \* WETH
+VaultWorth(st, v) == QAdd(v.coll, IF v.lp = 0 THEN Zero
+                                  ELSE IF DEV_LentLpAtIndex THEN LpVal(Env(st), v.lp) ELSE LpMark(st, v.lp))     \* ETH
+SqValue(st) ==                                                                                                   \* USD
+  LET c(i) == VaultWorth(st, st.vaults[i])
+      d(i) == st.vaults[i].short
+  IN  QSub(QMul(SumSeq(c, Len(st.vaults), 1), PxEth(st)),
+           QMul(QMul(SumSeq(d, Len(st.vaults), 1), PxSq(st)), PxEth(st)))
+AssetValue(st) == QAdd(QMul(st.weth, PxEth(st)), QMul(QMul(st.sqth, PxSq(st)), PxEth(st)))
+NetValue(st)   == QAdd(AssetValue(st), QAdd(QMul(UniValue(st), PxEth(st)), SqValue(st)))
+
 (* every derived, user-visible quantity *)
 View(st) == LET e == Env(st) IN
   [v |-> [i \in DOMAIN st.vaults |-> [coll |-> CollOf(e, st.vaults[i]), debt |-> DebtOf(e, st.vaults[i]),
-                                      safe |-> Safe(e, st.vaults[i]), water |-> AboveWater(e, st.vaults[i])]]]
+                                      safe |-> Safe(e, st.vaults[i]), water |-> AboveWater(e, st.vaults[i])]],
+   nv |-> [net |-> NetValue(st), asset |-> AssetValue(st), uni |-> UniValue(st), sq |-> SqValue(st)]]
 
 Core(st) == [vaults |-> st.vaults, weth |-> st.weth, sqth |-> st.sqth, lps |-> st.lps, path |-> st.path]
 
@@ -347,7 +387,11 @@ LiqRelation(e, v, w) ==
               /\ (paid # QMul(burned, price)) => w.short = Zero          \* capped: all the debt goes
 
 Act_C14_LiqAmounts(st, ev, r) ==
-  BarEnd(ev) =>
+  /\ (ev.op = "liq" /\ r.out = "ok") =>
+        /\ ~AboveWater(Env(st), st.vaults[ev.vk])
+        /\ LiqRelation(Env(st), st.vaults[ev.vk], r.st.vaults[ev.vk])
+        /\ \A i \in DOMAIN st.vaults : i # ev.vk => r.st.vaults[i] = st.vaults[i]
+  /\ BarEnd(ev) =>
     /\ \A i \in DOMAIN st.vaults :
          ~AboveWater(Env(st), st.vaults[i]) => LiqRelation(Env(st), st.vaults[i], r.st.vaults[i])
     /\ r.st.weth = st.weth
@@ -355,4 +399,23 @@ Act_C14_LiqAmounts(st, ev, r) ==
 
 (* C04 (owned elsewhere, carried here so that the DEV switches of C04-only defects are non-vacuous) *)
 Act_C04_Intact(st, ev, r) == r.out = "reject" => Core(r.st) = Core(st)
+
+(* C01: every LP position is counted exactly once: by the pool while "own", by exactly one vault while "vault", by nobody once "gone" *)
+Inv_C01_CountedOnce(st) ==
+  \A k \in DOMAIN st.lps :
+    LET holders == {i \in DOMAIN st.vaults : st.vaults[i].lp = k} IN
+    IF st.lps[k] = "vault" THEN Cardinality(holders) = 1 ELSE holders = {}
+
+(* C03: while the row stays the same no call, accepted or rejected, and no bar-end liquidation raises the net value by more than
+   wallet rounding dust (Asset.sub snaps a difference below 1e-5 of the balance to zero); amounts stay non-negative (Inv_C14_NonNeg);
+   a withdrawal / burn never takes more than the vault holds *)
+(* bar-end / public liquidation is not covered: liquidating an insolvent vault (collateral worth less than its debt) cancels the
+   bad debt against the collateral that is left, which raises the owner's net value by design (limited liability) *)
+Frozen(ev) == UserOp(ev) \/ ev.op = "spend"
+Act_C03_NoValueCreation(st, ev, r) ==
+  Frozen(ev) => QLe(NetValue(r.st), QAdd(NetValue(st), QMul(DustRatio, AssetValue(st))))
+Act_C03_PayoutBounded(st, ev, r) ==
+  (ev.op = "bw" /\ r.out = "ok") =>
+     /\ QLe(QSub(r.st.weth, st.weth), st.vaults[ev.vk].coll)
+     /\ QLe(QSub(st.sqth, r.st.sqth), st.vaults[ev.vk].short)
 =============================================================================
